@@ -173,3 +173,58 @@ Theorem C03_go_600_plies : forall fms s,
     Inv (g_pos g) /\ List.length (g_hist g) = List.length fms.
 Proof. exact go_position_startpos_reconstructs_600. Qed.
 Print Assumptions C03_go_600_plies.
+
+(* ======================= at the level of the WHOLE engine (Uci/Engine.v, tied to the real handleInput by the SESSION runs) ====== *)
+From Clemens Require Uci.Engine Uci.EngineInst Uci.Input Uci.Game Uci.GoLineSpec.
+From Clemens.C13Bridge Require Bridge.
+From Clemens.C01Att Require FideFacts.
+From Clemens.EngineE2E Require EngBase EngDispatch EngSearch EngE2E EngText.
+Import Clemens.Uci.Engine Clemens.Uci.EngineInst.
+
+(* the input line `position startpos moves m1 .. mn` (unknown tokens in front allowed) of a FIDE-legal game, from ANY engine state
+   that is not RUNNING, for any bounds and oracle: accepted silently, the engine's root is the FIDE position (exactly up to 255
+   plies, up to the two byte counters beyond), it is a legal position, and the repetition stack holds n entries *)
+Theorem C03_engine_position_startpos : forall e fms s line,
+  en_state e <> ST_RUNNING -> fide_game initial fms s -> (List.length fms <= 1024)%nat ->
+  EngDispatch.first_command line Input.w_position (EngE2E.startpos_tokens fms) ->
+  exists g,
+    (forall iters fuel c, go_handle iters fuel e line c = EOk (EngE2E.with_game e g) []) /\
+    FideFacts.same_core (abs (Game.g_pos g)) s /\ ((List.length fms <= 255)%nat -> abs (Game.g_pos g) = s) /\
+    Bridge.legal_pos (Game.g_pos g) /\ List.length (Game.g_hist g) = List.length fms.
+Proof. exact EngE2E.position_startpos_sets. Qed.
+Print Assumptions C03_engine_position_startpos.
+
+Theorem C03_engine_position_fen : forall e six p0 fms s line,
+  en_state e <> ST_RUNNING ->
+  List.length six = 6%nat -> new_from_fen go_keys unicode_digit_tbl (Game.join_sp six) = Ok p0 -> Bridge.legal_pos p0 ->
+  fide_game (abs p0) fms s -> (List.length fms <= 1024)%nat ->
+  EngDispatch.first_command line Input.w_position (EngE2E.fen_tokens six fms) ->
+  exists g,
+    (forall iters fuel c, go_handle iters fuel e line c = EOk (EngE2E.with_game e g) []) /\
+    FideFacts.same_core (abs (Game.g_pos g)) s /\
+    ((ply p0 + N.of_nat (List.length fms) <= 255)%N -> (hmc p0 + N.of_nat (List.length fms) <= 255)%N ->
+       abs (Game.g_pos g) = s) /\
+    Bridge.legal_pos (Game.g_pos g) /\ List.length (Game.g_hist g) = List.length fms.
+Proof. exact EngE2E.position_fen_sets. Qed.
+Print Assumptions C03_engine_position_fen.
+
+(* "every move the engine itself prints is accepted back with the same meaning", as a dialogue: the text of the bestmove line,
+   appended to the moves of the next position command, is accepted and sets the FIDE successor position *)
+Theorem C03_engine_bestmove_text : forall m,
+  go_render (OBestMove m) = ([t_bestmove ++ fide_text (decode m)], true).
+Proof. exact EngText.bestmove_text_fide. Qed.
+Print Assumptions C03_engine_bestmove_text.
+
+Theorem C03_engine_gui_dialogue : forall e' fms s m t,
+  fide_game initial fms s -> EngSearch.answer_spec s m -> Fide.legal_moves s <> [] ->
+  (List.length fms < 1024)%nat ->
+  go_render (OBestMove m) = ([t_bestmove ++ t], true) ->
+  en_state e' <> ST_RUNNING ->
+  let line := GoLineSpec.join (Input.w_position :: Game.w_startpos :: Game.w_moves :: map fide_text fms ++ [t]) in
+  exists g',
+    (forall iters fuel c, go_handle iters fuel e' line c = EOk (EngE2E.with_game e' g') []) /\
+    FideFacts.same_core (abs (Game.g_pos g')) (apply s (decode m)) /\
+    ((List.length fms < 255)%nat -> abs (Game.g_pos g') = apply s (decode m)) /\
+    Bridge.legal_pos (Game.g_pos g') /\ List.length (Game.g_hist g') = S (List.length fms).
+Proof. exact EngText.gui_dialogue_startpos. Qed.
+Print Assumptions C03_engine_gui_dialogue.
